@@ -318,12 +318,24 @@ PROPS["C16"] = dict(
           "_is_first_in_interval_step equals its set-level specification (functools.reduce proved as a loop with invariant); "
           "PercentilePruner/MedianPruner.prune: True implies >= max(1, n_startup) completed trials, step >= warm-up, first in "
           "interval; and a trial whose every reported value is strictly better than everything the completed trials "
-          "reported at that step is never pruned (both directions). Discharged by z3 for all histories.",
-    note="numpy-lite library contracts (nanmin/nanmax/nanpercentile/asarray: order facts only); Study.get_trials assumed; "
-         "Patient/SuccessiveHalving/Hyperband partially covered, Wilcoxon not covered",
+          "reported at that step is never pruned (both directions). PatientPruner.prune: False while at most patience+1 "
+          "steps are reported; True implies the position-free patience test over the steps ORDERED BY STEP NUMBER (rank = "
+          "number of reported steps below) and, with a wrapped pruner, that pruner's own decision. "
+          "_is_trial_promotable_to_next_rung: a value no competing value beats is promotable. "
+          "HyperbandPruner._get_bracket_id: result is the bracket whose budget interval contains "
+          "crc32(study_name_number) mod total budget -- a function of name and number only -- and the method is pure (empty frame). "
+          "Discharged by z3 for all histories.",
+    note="numpy-lite library contracts (nanmin/nanmax/nanpercentile/asarray/sort: order and rank facts only); Study.get_trials "
+         "assumed; SuccessiveHalvingPruner.prune's rung loop and Hyperband's delegation to bracket pruners are not under contract; "
+         "Wilcoxon not covered",
     assumptions=LIB_ASSUMPTIONS + ["np.nanmin/nanmax return the value of an entry no non-NaN entry beats (NaN iff all NaN); "
                                    "np.nanpercentile lies between the smallest and largest non-NaN entry",
                                    "Study.get_trials(states=S) returns exactly the trials with state in S (AS)",
-                                   "functools.reduce(f, it, init) is the left fold (executed as a loop)"],
-    not_covered=["WilcoxonPruner (scipy)", "SuccessiveHalvingPruner.prune rung loop and Hyperband delegation (partly)"],
+                                   "functools.reduce(f, it, init) is the left fold (executed as a loop)",
+                                   "list.sort()/ndarray.sort() yields an ordered permutation; for duplicate-free int input the "
+                                   "j-th output has exactly j input elements below it (count_less rank fact)",
+                                   "binascii.crc32 and str.format are deterministic functions of their arguments",
+                                   "the wrapped pruner of PatientPruner is an arbitrary pure decision function of (pruner, study, trial)"],
+    not_covered=["WilcoxonPruner (scipy)", "SuccessiveHalvingPruner.prune rung loop; HyperbandPruner.prune delegation and "
+                 "_BracketStudy filtering"],
 )
